@@ -158,8 +158,19 @@ def run_fit(case, R):
                 return
         except Exception:
             pass
+    mech = ''
+    if kind == 'cbmm':
+        # mechanism tag for known_findings.json: the Bingham normaliser of the fitted model itself is non-finite (finite, valid eigenvalues
+        # such as (-3e16, -46, -1.7, 0): the duplicate-removal step rebuilds them as smallest + cumsum(differences), which rounds the moderate
+        # ones to multiples of ulp(3e16) = 4, creates artificial duplicates and divides by zero)
+        try:
+            with instr.disarmed(), np.errstate(all='ignore'):
+                if not np.isfinite(np.asarray(model.complex_bingham.log_norm())).all():
+                    mech = '/bingham-normaliser-nonfinite'
+        except Exception:
+            pass
     ok = conds.check_affiliation(R, 'C01.M2', post, shape=s.aff_shape, eps=0.0, mask=s.mask if pk else None, active=active,
-                                 key=f'predict/{kind}', where=f'{kind}.predict')
+                                 key=f'predict/{kind}{mech}', where=f'{kind}.predict')
     if ok:
         try:
             with instr.disarmed():
@@ -207,7 +218,7 @@ def run_fit(case, R):
         R.ok('C01.raised')
         return
     ok = conds.check_affiliation(R, 'C01.M2', fp, shape=s.aff_shape, eps=0.0, mask=s.mask if kind == 'cacgmm' else None, active=active,
-                                 key=f'fit_predict/{kind}', where=f'{kind}.fit_predict')
+                                 key=f'fit_predict/{kind}{mech}', where=f'{kind}.fit_predict')
     if ok:
         dev = float(np.abs(fp - post).max())
         # GMM.fit_predict has its own default tying; compare only when the call is the same
